@@ -11,6 +11,9 @@
 // Snapshot() returns the agent's bytes; the agent receives Restore's bytes.
 //
 // Unit Frame (frame_test.go): WriteMessage/ReadMessage round trip over all fragmentations.
+// Unit Race (race_test.go): the sessions of unit Echo under forced schedules - a keepalive /
+// snapshot / restore message is under way while a side's write of a data frame is stopped
+// inside the frame. Same run function and oracle (runEchoUnit).
 package c19
 
 import (
@@ -53,6 +56,8 @@ type Op struct {
 	// snapshot/restore: the feeder waits for the call to return before it goes on; otherwise
 	// the call (made from the control goroutine) overlaps with the following data
 	Wait bool `json:"wait,omitempty"`
+	// point/batch: a forced schedule around this op (unit Race, race_test.go)
+	Race *RaceSpec `json:"race,omitempty"`
 }
 
 type EchoCase struct {
@@ -491,9 +496,13 @@ type session struct {
 	fedAll   bool
 	pingSeen int
 	pingLost int
+	raceLost int
 }
 
-func runEcho(c EchoCase, cc *kit.Case) {
+func runEcho(c EchoCase, cc *kit.Case) { runEchoUnit(c, cc, "Echo") }
+
+// runEchoUnit runs one session and judges it. unit only selects the non-trivial rule.
+func runEchoUnit(c EchoCase, cc *kit.Case, unit string) {
 	if err := c.applyRaw(); err != nil {
 		cc.Fail("harness/raw", "%v", err)
 		return
@@ -501,8 +510,10 @@ func runEcho(c EchoCase, cc *kit.Case) {
 	reqR, reqW := newPipe(c.Buffered)   // server -> agent
 	respR, respW := newPipe(c.Buffered) // agent -> server
 	var closeOnce sync.Once
+	quit := make(chan struct{})
 	closeAll := func() {
 		closeOnce.Do(func() {
+			close(quit)
 			reqW.Close()
 			reqR.Close()
 			respW.Close()
@@ -537,16 +548,41 @@ func runEcho(c EchoCase, cc *kit.Case) {
 	reqFrag := &fragReader{src: reqR, sizes: c.ReqChunks, scan: reqScan}
 	respFrag := &fragReader{src: respR, sizes: c.RespChunks, scan: &scanner{}}
 
-	a := agent.New(readCloser{reqFrag, reqR}, respW)
+	aborted := make(chan struct{})
+	// forced schedules (unit Race): gates on the two writers; sessions without them are wired as before
+	agentTargets, serverTargets, targets := raceTargets(c)
+	var agentOut io.WriteCloser = respW
+	var serverOut io.WriteCloser = reqW
+	var agentGate, serverGate *gate
+	if len(agentTargets) > 0 {
+		agentGate = newGate(respW, "agent", isDataResponse, time.Duration(c.KeepaliveMs)*time.Millisecond, quit, aborted)
+		agentGate.targets = agentTargets
+		agentOut = agentGate
+	}
+	if len(serverTargets) > 0 {
+		serverGate = newGate(reqW, "server", isDataRequest, time.Duration(c.KeepaliveMs)*time.Millisecond, quit, aborted)
+		serverGate.targets = serverTargets
+		serverOut = serverGate
+	}
+	if agentGate != nil {
+		watch := reqScan.onFrame
+		reqScan.onFrame = func(payload []byte) {
+			watch(payload)
+			if !isDataRequest(payload) {
+				agentGate.sawControl() // a control request has been read by the agent
+			}
+		}
+	}
+
+	a := agent.New(readCloser{reqFrag, reqR}, agentOut)
 	h := &echoHandler{a: a, c: &c}
 	for _, op := range c.Ops {
-		if op.Kind == "snapshot" {
-			h.snaps = append(h.snaps, op.Data)
+		if ctlKind(op) == "snapshot" {
+			h.snaps = append(h.snaps, ctlData(op))
 		}
 	}
 	a.Handler = h
 
-	aborted := make(chan struct{})
 	var feedWG sync.WaitGroup
 	// what UDFNode.abortedCallback does: tell the writer to stop and wait until it has
 	abortCB := func() {
@@ -554,7 +590,7 @@ func runEcho(c EchoCase, cc *kit.Case) {
 		feedWG.Wait()
 	}
 	diag := &recDiag{}
-	srv := udf.NewServer(c.TaskID, c.NodeID, bufio.NewReader(respFrag), reqW, diag,
+	srv := udf.NewServer(c.TaskID, c.NodeID, bufio.NewReader(respFrag), serverOut, diag,
 		time.Duration(c.KeepaliveMs)*time.Millisecond, abortCB, release)
 
 	s := &session{}
@@ -562,7 +598,7 @@ func runEcho(c EchoCase, cc *kit.Case) {
 	done := make(chan struct{})
 	go func() {
 		defer close(done)
-		s.run(c, srv, a, h, aborted, &feedWG, &pings, pingC, release)
+		s.run(c, srv, a, h, aborted, &feedWG, &pings, pingC, release, targets)
 	}()
 	select {
 	case <-done:
@@ -615,7 +651,28 @@ func runEcho(c EchoCase, cc *kit.Case) {
 		cc.Label("resp-frame>4096B")
 	}
 	richBatch := false
-	for _, op := range c.Ops {
+	raceHeld := false
+	for i, op := range c.Ops {
+		if tg := targets[i]; tg != nil {
+			cc.Label("race:" + tg.spec.Side + "/" + tg.spec.Trigger)
+			cc.Label("race-pos:" + tg.spec.Pos)
+			select {
+			case <-tg.ended:
+				o := tg.outcome
+				if o == "" {
+					o = "not-reached"
+				}
+				cc.Label("race:" + o)
+				if o == "gave-up" {
+					cc.Label("race:gave-up:" + tg.spec.Side + "/" + tg.spec.Trigger)
+				}
+				if o == "window" {
+					raceHeld = true
+				}
+			default:
+				cc.Label("race:not-reached")
+			}
+		}
 		switch op.Kind {
 		case "point":
 			cc.Label("op:point")
@@ -682,6 +739,14 @@ func runEcho(c EchoCase, cc *kit.Case) {
 	if len(c.Ops) == 0 {
 		cc.Label("no-ops")
 	}
+	for _, g := range []*gate{agentGate, serverGate} {
+		if g != nil && g.seconds > 0 {
+			cc.Label("race:" + g.side + "-has-two-writers")
+		}
+	}
+	if s.raceLost > 0 {
+		cc.Label("race:feeder-gave-up")
+	}
 
 	// ---- verdict
 	if s.stopErr != nil && strings.Contains(s.stopErr.Error(), "keepalive timedout") {
@@ -741,7 +806,7 @@ func runEcho(c EchoCase, cc *kit.Case) {
 	// snapshot / restore
 	var sentRestores [][]byte
 	for _, r := range s.ctrl {
-		op := c.Ops[r.op]
+		op := Op{Data: ctlData(c.Ops[r.op])}
 		if r.err != nil {
 			cc.Fail("echo/"+r.kind+"-error", "op %d: %s failed: %v (diagnostics: %s)", r.op, r.kind, r.err, diag.all())
 			return
@@ -769,8 +834,15 @@ func runEcho(c EchoCase, cc *kit.Case) {
 		cc.Fail("echo/unrequested", "the agent saw %v", h.extra)
 		return
 	}
-	if richBatch && respFrag.splitPrefix > 0 {
-		cc.NonTrivial()
+	switch unit {
+	case "Race":
+		if raceHeld {
+			cc.NonTrivial()
+		}
+	default:
+		if richBatch && respFrag.splitPrefix > 0 {
+			cc.NonTrivial()
+		}
 	}
 }
 
@@ -829,7 +901,7 @@ func comparePrefix(cc *kit.Case, s *session, prefixOnly bool) bool {
 }
 
 func (s *session) run(c EchoCase, srv *udf.Server, a *agent.Agent, h *echoHandler, aborted chan struct{}, feedWG *sync.WaitGroup,
-	pings *atomic.Int64, pingC chan struct{}, release func()) {
+	pings *atomic.Int64, pingC chan struct{}, release func(), targets map[int]*holdTarget) {
 	s.phase.Store("agent start")
 	if err := a.Start(); err != nil {
 		s.agentErr = err
@@ -867,7 +939,7 @@ func (s *session) run(c EchoCase, srv *udf.Server, a *agent.Agent, h *echoHandle
 			if r.kind == "snapshot" {
 				r.data, r.err = srv.Snapshot()
 			} else {
-				r.err = srv.Restore(c.Ops[r.op].Data)
+				r.err = srv.Restore(ctlData(c.Ops[r.op]))
 			}
 			close(r.done)
 		}
@@ -894,12 +966,59 @@ func (s *session) run(c EchoCase, srv *udf.Server, a *agent.Agent, h *echoHandle
 				return false
 			}
 		}
+		// race: the op's data has been handed to the server and one of its frames is (about to
+		// be) stopped in a gate: provoke the control traffic of the op, then wait for the gate
+		race := func(i int, op Op) bool {
+			tg := targets[i]
+			if tg == nil {
+				return true
+			}
+			bound := time.NewTimer(raceBound)
+			defer bound.Stop()
+			select {
+			case <-tg.started:
+			case <-aborted:
+				return false
+			case <-bound.C:
+				s.raceLost++
+			}
+			if kind := ctlKind(op); kind != "" {
+				// the call is made whether the gate was reached or not (the agent's snapshot answers are numbered)
+				r := &ctrlResult{op: i, kind: kind, done: make(chan struct{})}
+				for _, e := range s.ctrl { // an earlier call that is still under way is as good
+					select {
+					case <-e.done:
+					default:
+						tg.fire()
+					}
+				}
+				s.ctrl = append(s.ctrl, r)
+				select {
+				case ctrlC <- r:
+					tg.fire()
+				case <-aborted:
+					r.err = errors.New("harness: server aborted before the call")
+					return false
+				}
+			}
+			select {
+			case <-tg.ended:
+			case <-aborted:
+				return false
+			case <-bound.C:
+				s.raceLost++
+			}
+			return true
+		}
 		for i, op := range c.Ops {
 			switch op.Kind {
 			case "point":
 				m := op.P.Msg()
 				s.expected = append(s.expected, observe(m))
 				if !send(m) {
+					return
+				}
+				if !race(i, op) {
 					return
 				}
 			case "batch":
@@ -918,6 +1037,9 @@ func (s *session) run(c EchoCase, srv *udf.Server, a *agent.Agent, h *echoHandle
 					if !send(bm) {
 						return
 					}
+					if !race(i, op) {
+						return
+					}
 					continue
 				}
 				if !send(bm.Begin()) {
@@ -929,6 +1051,9 @@ func (s *session) run(c EchoCase, srv *udf.Server, a *agent.Agent, h *echoHandle
 					}
 				}
 				if !send(bm.End()) {
+					return
+				}
+				if !race(i, op) {
 					return
 				}
 			case "snapshot", "restore":
